@@ -576,6 +576,35 @@ Definition wf_opb (d : wdecl) (o : op) : bool :=
 Definition wf_declb (d : wdecl) : bool := forallb (fun a => (da_id a <? 2^8)%N) (wd_archs d).
 Definition wf_case (d : wdecl) (ops : list op) : bool := wf_declb d && forallb (wf_opb d) ops.
 
+(** The only state-dependent side condition: a preset must not lower a slot generation. *)
+Definition hist_ok_step (st : rstate) (o : op) : bool :=
+  match o with
+  | OPreset a sv av =>
+      match cur_world st with
+      | Some w => match w !! a with Some s => forallb (fun x => (s_ver x <=? sv)%N) (slots s) | None => true end
+      | None => true
+      end
+  | _ => true
+  end.
+
+(** Run a history from a state; [None] on undefined behaviour. *)
+Fixpoint run_to (cfg : config) (d : wdecl) (qs : list (list qparam)) (st : rstate) (ops : list op) : option rstate :=
+  match ops with
+  | [] => Some st
+  | o :: rest => match step cfg d qs st o with Some (st', _) => run_to cfg d qs st' rest | None => None end
+  end.
+
+(** The side conditions of the history theorems, checked along the run. *)
+Fixpoint ok_run (cfg : config) (d : wdecl) (qs : list (list qparam)) (st : rstate) (ops : list op) : bool :=
+  match ops with
+  | [] => true
+  | o :: rest => wf_opb d o && hist_ok_step st o &&
+                 match step cfg d qs st o with Some (st', _) => ok_run cfg d qs st' rest | None => false end
+  end.
+
+Definition hist_case (cfg : config) (d : wdecl) (qs : list (list qparam)) (ops : list op) : bool :=
+  negb (wrapping cfg) && wf_declb d && ok_run cfg d qs rs0 ops.
+
 Definition check_case_w (cfg : config) (d : wdecl) (qs : list (list qparam)) (ops : list op) (impl : list (list N))
-  : bool * option (N * list N * list N) :=
-  (wf_case d ops, check_case cfg d qs ops impl).
+  : bool * bool * option (N * list N * list N) :=
+  (wf_case d ops, hist_case cfg d qs ops, check_case cfg d qs ops impl).
